@@ -180,6 +180,9 @@ def run_property(pid, tier, seed):
             cpu += r['cpu']
             states = [m[0] for m in r['msgs']]
             verdict = None
+            if r.get('exhausted'):
+                harness_errors.append(f'random-number carrier too small in {fam.name}{sel}: {r["exhausted"]} paths were dropped because the code drew '
+                                      f'more random numbers than the harness supplies')
             if not states:
                 verdict = 'inconclusive'
             elif all(s == 'CONFIRMED' for s in states):
